@@ -178,6 +178,9 @@ func (r *Run) Finish(cov map[string]any) {
 		ToolError("evidence: %v", err)
 	}
 	dir := filepath.Join(Root, "evidence")
+	if d := os.Getenv("VERIF_EVIDENCE_DIR"); d != "" {
+		dir = d // mutation / seed runs against scratch trees must not overwrite the evidence of the real tree
+	}
 	_ = os.MkdirAll(dir, 0o755)
 	if err := os.WriteFile(filepath.Join(dir, r.Prop+".json"), b, 0o644); err != nil {
 		ToolError("evidence: %v", err)
